@@ -530,6 +530,18 @@ Section SpecFacts.
       bind_step H; [|discriminate]. eapply IH; [|exact H]. intros u e' Hu. apply Hp. right. exact Hu.
     Qed.
 
+    Lemma coerce_tuple_err : forall l e,
+      (forall u e, In u l -> path_from_spec u = Err e -> P e) ->
+      coerce_tuple path_from_spec l = Err e -> P e.
+    Proof.
+      induction l as [|v r IH]; intros e Hp H; cbn [coerce_tuple] in H; [discriminate|].
+      destruct (path_from_spec v) as [x|e'] eqn:E.
+      - injection H as <-. exact P_type.
+      - assert (He : P e') by (eapply Hp; [left; reflexivity|exact E]).
+        destruct e'; try (injection H as <-; exact He).
+        eapply IH; [|exact H]. intros u e'' Hu. apply Hp. right. exact Hu.
+    Qed.
+
     Lemma coerce_kvs_err : forall d e,
       (forall k u e, In (k, u) d -> path_from_spec u = Err e -> P e) ->
       coerce_kvs path_from_spec d = Err e -> P e.
@@ -546,10 +558,8 @@ Section SpecFacts.
       intros Hp H. destruct v; cbn [coerce] in H; try discriminate.
       - bind_step H; [|discriminate]. eapply coerce_items_err; [|exact H].
         intros u e' Hu. apply Hp. rewrite vdepth_list. apply ldepth_in in Hu. lia.
-      - bind_step H.
-        + eapply coerce_items_err; [|exact H].
-          intros u e' Hu. apply Hp. rewrite vdepth_tuple. apply ldepth_in in Hu. lia.
-        + destruct (existsb _ a); [injection H as <-; exact P_type | discriminate].
+      - bind_step H; [|discriminate]. eapply coerce_tuple_err; [|exact H].
+        intros u e' Hu. apply Hp. rewrite vdepth_tuple. apply ldepth_in in Hu. lia.
       - destruct (path_from_spec (VDict d)) as [[p|d']|e'] eqn:E.
         + discriminate.
         + destruct d'; discriminate.
